@@ -11,7 +11,7 @@ pub mod vis;
 
 pub fn all_checks() -> Vec<&'static dyn sup::Check> {
     #[allow(unused_mut)]
-    let mut v: Vec<&'static dyn sup::Check> = vec![&checks::c01::C01, &checks::c02::C02, &checks::c03::C03, &checks::c04::C04, &checks::c05::C05, &checks::c06::C06, &checks::c07::C07, &checks::c08::C08, &checks::c09::C09, &checks::c10::C10, &checks::c11::C11, &checks::c12::C12, &checks::c13::C13, &checks::c16::C16, &checks::c18::C18, &checks::c19::C19, &checks::c20::C20];
+    let mut v: Vec<&'static dyn sup::Check> = vec![&checks::c01::C01, &checks::c02::C02, &checks::c03::C03, &checks::c04::C04, &checks::c05::C05, &checks::c06::C06, &checks::c07::C07, &checks::c08::C08, &checks::c09::C09, &checks::c10::C10, &checks::c11::C11, &checks::c12::C12, &checks::c13::C13, &checks::c16::C16, &checks::c17::C17, &checks::c18::C18, &checks::c19::C19, &checks::c20::C20];
     #[cfg(feature = "full")]
     v.push(&checks::c14::C14);
     #[cfg(feature = "full")]
